@@ -143,11 +143,11 @@ def check(ctx, prop):
             gate.append(("dev:" + dev, s))
         else:
             mon.append(("dev:" + dev, s))
-    n = 150 if quick else 2500
+    n = 150 if quick else 1500
     hs, _ = simulate(ctx, d, "MC_S3Health.tla", "Sim_S3Health.cfg", num=n, depth=16, seed=ctx.seed)
     for h in hs:
         mon.append(("sim", sched_of(h, SIM_WIN, SIM_MAXN)))
-    ng = 60 if quick else 600
+    ng = 60 if quick else 400
     hg, _ = simulate(ctx, d, "MC_S3Health.tla", "Sim_S3Health_gate.cfg", num=ng, depth=12, seed=ctx.seed + 7)
     for h in hg:
         gate.append(("simgate", sched_of(h, HUGE_WIN, SIM_MAXN)))
@@ -166,7 +166,7 @@ def check(ctx, prop):
     ratings = {r["st"] for r in rows if r["ev"] in ("Query", "Probe")}
     if nprobe == 0 or nrej == 0 or nrej == nprobe or ratings != {"healthy", "degraded", "unavailable"}:
         raise Broken("vacuous run: probes=%d rejected=%d ratings=%s" % (nprobe, nrej, sorted(ratings)))
-    consumed, _, ores = layers.observe(ctx, DIR, "Obs_S3Health.tla", "Obs_S3Health.cfg", rows)
+    consumed, _, ores = layers.observe(ctx, DIR, "Obs_S3Health.tla", "Obs_S3Health.cfg", rows, timeout=3000)
     sched_of_line = lambda line: sum(1 for r in rows[:line] if r["ev"] == "Reset") - 1
     where_of = lambda i: "gate" if scheds[i]["win"] == HUGE_WIN else "monitor"
     violations, first = [], set()
@@ -187,7 +187,7 @@ def check(ctx, prop):
     for key in sorted({(s["win"], s["maxn"]) for s in scheds}):
         idxs = [i for i, s in enumerate(scheds) if (s["win"], s["maxn"]) == key]
         sub = [r for i in idxs for r in runs[i]]
-        reached, total, _ = layers.conform(ctx, DIR, "Trace_S3Health.tla", "Trace_S3Health.cfg", sub, name="conf%d_%d" % key, cfg_text=TRACE_CFG % key)
+        reached, total, _ = layers.conform(ctx, DIR, "Trace_S3Health.tla", "Trace_S3Health.cfg", sub, name="conf%d_%d" % key, cfg_text=TRACE_CFG % key, timeout=3000)
         if reached == total:
             conf["accepted"] += len(idxs)
         else:
